@@ -44,14 +44,19 @@ def run(tool, tier, seed):
         src = open(os.path.join(os.environ.get('VERIF_REPO', '/repo'), tool['file'])).read()
         src = re.sub(r'(?s)#\[cfg\(test\)\]\s*mod\s+\w+\s*\{.*', '', src)   # unit tests at the end of the file are not library code
         code = extract.strip_docs_attrs(src)
-        m = re.search(r'pub\s+struct\s+%s\s*\{([^}]*)\}' % re.escape(tool['struct']), code)
-        if not m:
-            raise engine.Undecided('premise %s: struct %s not found in %s' % (tool['name'], tool['struct'], tool['file']))
-        fields = sorted(' '.join(f.split()) for f in m.group(1).split(',') if f.strip())
-        want = sorted(tool['fields'])
         bad = []
-        if fields != want:
-            bad.append('fields of %s are %s, expected %s' % (tool['struct'], fields, want))
+        want = sorted(tool.get('fields', []))
+        if tool.get('struct'):
+            m = re.search(r'pub\s+struct\s+%s\b[^{;]*\{([^}]*)\}' % re.escape(tool['struct']), code)
+            if not m:
+                raise engine.Undecided('premise %s: struct %s not found in %s' % (tool['name'], tool['struct'], tool['file']))
+            fields = sorted(' '.join(f.split()) for f in m.group(1).split(',') if f.strip())
+            if fields != want:
+                bad.append('fields of %s are %s, expected %s' % (tool['struct'], fields, want))
+        for rx, n in tool.get('exactly', []):
+            k = len(re.findall(rx, code))
+            if k != n:
+                bad.append('%r occurs %d times in %s, expected %d' % (rx, k, tool['file'], n))
         for rx in tool['forbid']:
             mm = re.search(rx, code)
             if mm:
